@@ -93,6 +93,13 @@ def run(chk, ctx):
         for dp in D.paths:
             if kind in ('int', 'float', 'bool', 'timestamp'):
                 okk, fact = int_read_ok(dp, ref)
+                if okk and kind == 'bool':
+                    # grammar: 0 = FALSE, anything else = TRUE
+                    v = dp.value
+                    rd0 = list(dp.reads.values())[0].term
+                    okk = isinstance(v, Sym) and v.op == 'ne' and \
+                        v.args[0] is rd0 and v.args[1] == 0
+                    fact += '; value = %s' % T.show(v)[:60]
             elif kind == 'void':
                 okk = dp.consumed == 0 and dp.value is None and \
                     not dp.reads
